@@ -1,0 +1,47 @@
+//! Verification hooks: event counters read by the runtime monitors under
+//! `/verif`. Compiled only with the `verif` feature; never alters behavior.
+
+use core::sync::atomic::{AtomicUsize, Ordering};
+
+macro_rules! counters {
+    ($($(#[$doc:meta])* $name:ident),* $(,)?) => {
+        $( $(#[$doc])* pub(crate) static $name: AtomicUsize = AtomicUsize::new(0); )*
+
+        /// Snapshot of all counters, in declaration order.
+        #[must_use]
+        pub fn counters() -> [(&'static str, usize); { [$(stringify!($name)),*].len() }] {
+            [$((stringify!($name), $name.load(Ordering::Relaxed))),*]
+        }
+
+        /// Reset all counters to zero.
+        pub fn reset_counters() {
+            $( $name.store(0, Ordering::Relaxed); )*
+        }
+    };
+}
+
+counters! {
+    /// Reachability traces started.
+    TRACE_INVOCATIONS,
+    /// Worklist entries popped by traces.
+    TRACE_POPS,
+    /// Objects whose link table was expanded by traces.
+    TRACE_EXPANSIONS,
+    /// Link table entries scanned by traces.
+    TRACE_ENTRIES_SCANNED,
+    /// Handle drops that returned early because the object was already dead.
+    DROP_DEAD_HANDLE,
+    /// Teardowns of an object without links whose strong count reached zero.
+    DROP_PLAIN,
+    /// Teardowns of an object with links whose strong count reached zero.
+    DROP_WITH_ADOPTIONS,
+    /// Teardowns of an orphaned group.
+    DROP_GROUP,
+    /// Objects destroyed as members of an orphaned group.
+    DROP_GROUP_MEMBERS,
+}
+
+#[inline(always)]
+pub(crate) fn bump(counter: &AtomicUsize) {
+    counter.fetch_add(1, Ordering::Relaxed);
+}
